@@ -22,7 +22,7 @@ DESIGN_INVS = ["TypeOK", "DecodeRecoversSource", "BranchReach", "RelLands", "Ali
 
 BRANCHES = ["br", "bne", "beq", "bge", "blt", "bgt", "ble", "bpl", "bmi", "bhi", "blos", "bvc", "bvs",
             "bcc", "bhis", "bcs", "blo"]
-ALL_SHAPES = ["dot", "dotdec", "dec", "lbl", "lblp", "lblm", "loc", "locc"]
+ALL_SHAPES = ["dot", "dotdec", "dec", "lbl", "lblp", "lblm", "loc", "locc", "locp", "numlocc", "parlbl"]
 
 
 def tla_set(items):
@@ -81,6 +81,12 @@ def target_text(a, shape, A, label):
         return label
     if shape == "locc":
         return label + ":"
+    if shape == "locp":
+        return label + "+2"             # '10+2': the first number of a complex branch operand is a local label
+    if shape == "numlocc":
+        return "2+" + label + ":"       # a literal plus a local label written with its colon
+    if shape == "parlbl":
+        return "(" + label + ")+2"
     raise MachineryError(f"unknown shape {shape}")
 
 
@@ -152,14 +158,14 @@ def render_alone(rec, variant):
     """-> (source text, link start, byte offset of the instruction in the image, expected image length)"""
     A, L = rec["a"], rec["len"]
     shape = rec.get("sh", "-")
-    local = shape in ("loc", "locc")
+    local = shape in ("loc", "locc", "locp", "numlocc")
     names, near, far = [], [], []
     for j, a in enumerate(rec["args"]):
         plan = a.get("lab") or {"a": -1, "near": False}
         if plan["a"] < 0:
             names.append(None)
             continue
-        nm = str(j + 1) if local else "lab%d" % (j + 1)
+        nm = (("1%d" % j) if shape == "locp" else str(j + 1)) if local else "lab%d" % (j + 1)      # locp: two-digit local names 10, 11
         names.append(nm)
         (near if plan["near"] else far).append((plan["a"], nm))
     lines = []
